@@ -158,4 +158,67 @@ Proof.
       * unfold sw_all_cats. cbn. constructor; [intros [H|[]]; apply fresh_inj in H; lia|constructor; [intros []|constructor]].
     + eexists. reflexivity.
 Qed.
+
+(* ---------------------------------------------------------------- edges of a row *)
+Variable GP : id -> Prop.
+
+Lemma source_sim phi sr sc e :
+  Sim phi sr sc ->
+  match source_group sr e, csource sc e with
+  | None, Err _ => True
+  | Some a, Ok b => a = b
+  | _, _ => False
+  end.
+Proof.
+  intros Hsim. unfold source_group, csource. rewrite (sim_stack _ _ _ Hsim), (sim_rowmap _ _ _ Hsim).
+  destruct (e_from e) as [| |rid]; try reflexivity. destruct (alookup (cs_rowmap sc) rid); [reflexivity|exact I].
+Qed.
+
+Lemma fuel_sim phi sr sc : Sim phi sr sc -> fuel_of sr = cfuel sc.
+Proof. intros Hsim. unfold fuel_of, cfuel. rewrite (Forall2_length' _ _ _ (sim_groups _ _ _ Hsim)). reflexivity. Qed.
+
+Definition step_post (phi : list (nat * option nat)) (sr : st) (sc : cstate) (sr' : st) (sc' : cstate) : Prop :=
+  exists phi', Sim phi' sr' sc' /\ phi_le phi phi' /\ StOK fresh GP sc' /\ ext sc sc' /\ gframe sr sr' /\ pframe sr phi phi'.
+
+Lemma step_post_refl phi sr sc : Sim phi sr sc -> StOK fresh GP sc -> step_post phi sr sc sr sc.
+Proof.
+  intros H1 H2. exists phi. split; [exact H1|]. split; [apply phi_le_refl|]. split; [exact H2|]. split; [apply ext_refl|].
+  split; [apply (gframe_refl fresh fresh_inj)|apply pframe_refl].
+Qed.
+
+Lemma add_row_edge_sim phi sr sc e tgt dd sr' sc' :
+  Sim phi sr sc -> StOK fresh GP sc -> edge_ok e -> dest_sim phi (cuu sc) tgt dd ->
+  add_row_edge nab sr e tgt = Some sr' -> cadd_row_edge fresh sc e dd = Ok sc' -> step_post phi sr sc sr' sc'.
+Proof.
+  intros Hsim Hst He Hd. unfold add_row_edge, cadd_row_edge. pose proof (source_sim phi sr sc e Hsim) as Hs.
+  destruct (source_group sr e) as [[g|]|], (csource sc e) as [[g'|]|x]; try contradiction; try discriminate.
+  - injection Hs as <-. rewrite (fuel_sim _ _ _ Hsim). intros H1 H2.
+    eapply (add_exit_sim fresh GP fresh_inj fresh_not_sentinel); eauto.
+  - intros H1 H2. injection H1 as <-. injection H2 as <-. apply step_post_refl; assumption.
+Qed.
+
+Lemma step_post_trans phi sr sc phi1 sr1 sc1 sr2 sc2 :
+  Sim phi1 sr1 sc1 -> phi_le phi phi1 -> ext sc sc1 -> gframe sr sr1 -> pframe sr phi phi1 ->
+  step_post phi1 sr1 sc1 sr2 sc2 -> step_post phi sr sc sr2 sc2.
+Proof.
+  intros _ Hle He Hf Hp (phi2 & H1 & H2 & H3 & H4 & H5 & H6). exists phi2. split; [exact H1|].
+  split; [eapply phi_le_trans; eauto|]. split; [exact H3|]. split; [eapply ext_trans; eauto|].
+  split; [eapply gframe_trans; eauto|eapply pframe_trans; eauto].
+Qed.
+
+(* all the edges of a row lead to one target *)
+Lemma fold_edges_sim es : forall phi sr sc tgt dd sr' sc',
+  Sim phi sr sc -> StOK fresh GP sc -> Forall edge_ok es -> dest_sim phi (cuu sc) tgt dd ->
+  fold_edges nab sr es (fun _ => tgt) = Some sr' -> foldM (fun s' e => cadd_row_edge fresh s' e dd) es sc = Ok sc' ->
+  step_post phi sr sc sr' sc'.
+Proof.
+  unfold fold_edges. induction es as [|e r IH]; intros phi sr sc tgt dd sr' sc' Hsim Hst Hes Hd; cbn.
+  - intros H1 H2. injection H1 as <-. injection H2 as <-. apply step_post_refl; assumption.
+  - inversion Hes as [|? ? He Hr]; subst.
+    destruct (add_row_edge nab sr e tgt) as [s1|] eqn:E1.
+    2:{ intros H. exfalso. clear - H. induction r as [|a r IHr]; cbn in H; [discriminate|auto]. }
+    destruct (cadd_row_edge fresh sc e dd) as [c1|x] eqn:E2; [|discriminate]. intros H1 H2.
+    destruct (add_row_edge_sim phi sr sc e tgt dd s1 c1 Hsim Hst He Hd E1 E2) as (phi1 & S1 & L1 & T1 & X1 & F1 & P1).
+    eapply step_post_trans; eauto. eapply IH; eauto. eapply dest_sim_mono; [exact L1|apply ext_grows, X1|exact Hd].
+Qed.
 End Step.
